@@ -77,3 +77,16 @@ func VerifC06VisitedCells(q *CrossingEdgeQuery, a, b Point) []CellID {
 	}
 	return out
 }
+
+// VerifC06LoopIndex / VerifC06PolygonIndex return the shape's own index.
+func VerifC06LoopIndex(l *Loop) *ShapeIndex       { return l.index }
+func VerifC06PolygonIndex(p *Polygon) *ShapeIndex { return p.index }
+
+// VerifC06ApproxMeets is the per-edge test of Loop/Polygon.boundaryApproxIntersects for edge (a, b)
+// and the target cell: ClipToPaddedFace with maxError, then edgeIntersectsRect on the expanded bound.
+func VerifC06ApproxMeets(a, b Point, target Cell) bool {
+	maxError := (faceClipErrorUVCoord + intersectsRectErrorUVDist)
+	bound := target.BoundUV().ExpandedByMargin(maxError)
+	v0, v1, ok := ClipToPaddedFace(a, b, target.Face(), maxError)
+	return ok && edgeIntersectsRect(v0, v1, bound)
+}
